@@ -28,6 +28,14 @@ class Esc:
         return f"{self.exc.split('.')[-1]} @ {self.func.split('sansldap.')[-1]}:{self.line} `{self.text[:70]}` [{self.kind}{' ' + self.prov if self.prov != '-' else ''}]"
 
 
+def split_ctx(self_cls: Optional[str]):
+    """(self class, {param: exact class}) of a summary key's context component `Cls|p=Class,...`."""
+    if self_cls is None or "|" not in self_cls:
+        return self_cls, {}
+    head, tail = self_cls.split("|", 1)
+    return (head or None), dict(kv.split("=", 1) for kv in tail.split(",") if kv)
+
+
 def exc_is_sub(m: Model, c: str, base: str) -> bool:
     if c == base:
         return True
@@ -230,7 +238,8 @@ class MayRaise:
         if fi is None:
             raise AnalysisError(f"function {qual} vanished")
         self.edges.setdefault(key, set())
-        ctx = {"fi": fi, "self_cls": self_cls, "key": key, "caught": frozenset(), "handler_var": None}
+        self_cls, pcls = split_ctx(self_cls)
+        ctx = {"fi": fi, "self_cls": self_cls, "pcls": pcls, "key": key, "caught": frozenset(), "handler_var": None}
         if isinstance(fi.node, ast.Lambda):
             out = self.expr_escapes(fi.node.body, ctx)
         else:
@@ -662,14 +671,36 @@ class MayRaise:
         return (lo, hi)
 
     # ------------------------------------------------------------------ calls
-    def exact_class(self, recv: ast.expr, fi: FuncInfo) -> Optional[str]:
-        """Concrete class of a receiver that is a local only ever bound to constructor calls of one class."""
+    def exact_class(self, recv: ast.expr, fi: FuncInfo, ctx=None) -> Optional[str]:
+        """Concrete class of a receiver that is a local only ever bound to constructor calls of one class, or a
+        parameter that the calling context binds to such a value (one level of call-site sensitivity for thin wrappers)."""
         if not isinstance(recv, ast.Name):
             return None
+        pcls = (ctx or {}).get("pcls") or {}
+        if recv.id in pcls and recv.id in fi.params() and not self._rebound(recv.id, fi):
+            return pcls[recv.id]
         ck = (fi.qualname, recv.id)
         if ck not in self._exact_cache:
             self._exact_cache[ck] = self._exact_class_uncached(recv, fi)
         return self._exact_cache[ck]
+
+    def _rebound(self, name: str, fi: FuncInfo) -> bool:
+        return any(isinstance(x, ast.Name) and x.id == name and isinstance(x.ctx, (ast.Store, ast.Del)) for x in walk_no_nested(fi.node))
+
+    def arg_classes(self, callee: FuncInfo, e: ast.Call, ctx) -> str:
+        """`|p=Class,...` for the parameters of callee that this call site binds to a value of exactly known class."""
+        fi: FuncInfo = ctx["fi"]
+        ps = callee.params()
+        if callee.cls and not callee.is_staticmethod:
+            ps = ps[1:]
+        got = {}
+        pairs = [(ps[i], a) for i, a in enumerate(e.args) if i < len(ps)] + [(k.arg, k.value) for k in e.keywords if k.arg in ps]
+        for p_, a in pairs:
+            if isinstance(a, ast.Name):
+                c = self.exact_class(a, fi, ctx)
+                if c is not None:
+                    got[p_] = c
+        return ("|" + ",".join(f"{k}={v}" for k, v in sorted(got.items()))) if got else ""
 
     def _exact_class_uncached(self, recv: ast.Name, fi: FuncInfo) -> Optional[str]:
         cls: Set[str] = set()
@@ -718,12 +749,13 @@ class MayRaise:
                 elif isinstance(rv, ast.Call) and isinstance(rv.func, ast.Name) and rv.func.id == "super":
                     self_cls_callee = ctx["self_cls"]
                 else:
-                    self_cls_callee = self.exact_class(rv, fi)
+                    self_cls_callee = self.exact_class(rv, fi, ctx)
                     if self_cls_callee is not None:
                         mt = self.m.find_method(self_cls_callee, e.func.attr)
                         fis = [mt] if mt is not None else fis
             for callee in fis:
-                out |= self.call_summary(callee, self_cls_callee, ctx, e, recv=e.func.value if isinstance(e.func, ast.Attribute) else None)
+                sfx = self.arg_classes(callee, e, ctx) if not isinstance(callee.node, ast.Lambda) else ""
+                out |= self.call_summary(callee, ((self_cls_callee or "") + sfx) if sfx else self_cls_callee, ctx, e, recv=e.func.value if isinstance(e.func, ast.Attribute) else None)
             return out
         if kind == "ctor":
             q = res[1]
